@@ -29,64 +29,111 @@ def exact(x):
     return Fraction(*x.as_integer_ratio())
 
 
-def gen_program(rng):
-    """-> dict(drop, doubled, offset, lines=[(frame, words)], events=[(kind, line_index, k)])"""
+BASES = [0, 1, 30 * 59, 30 * 3600, 30 * 3600 + 17, 30 * 7322, 30 * (10 * 3600 + 59 * 60 + 58), 30 * (23 * 3600 + 45 * 60),
+         30 * (12 * 3600 + 34 * 60 + 56) + 29]
+
+
+def flash_probe(rng):
+    """one caption whose start is floored to 0 by the offset and whose end falls D microseconds later, D uniform in
+    30..70 ms: pins the 0.05 s bound of the flash rule (whole-frame durations only probe 33.4 and 66.7 ms)"""
     drop = rng.random() < 0.5
-    doubled = rng.random() < 0.6
-    base = rng.choice([0, 1, 30 * 59, 30 * 3600, 30 * 3600 + 17, 30 * 7322])
-    offset = rng.choice([0, 0, 0, 0, 1, 1, 0.5, 3599, 3599]) if base >= 30 * 3600 else rng.choice([0, 0, 0, 1, 0.5])
-    if rng.random() < 0.04:
+    ws = [g.ENM, g.RCL, g.pac(15)] + g.text_words("flash") + [g.EOC, FILL, FILL, g.EDM]
+    k_eoc, k_edm = len(ws) - 4, len(ws) - 1
+    rate = Fraction(1) if drop else Fraction(1001, 1000)
+    t_edm = Fraction(k_edm, 30) * rate * 1000000
+    d = rng.choice([rng.uniform(30000, 70000), rng.uniform(49000, 51000)])
+    if abs(d - 50000) < 0.01:
+        d = 50001.0
+    offset = float((t_edm - Fraction(d)) / 1000000)
+    return {"drop": drop, "doubled": "False", "offset": offset, "lines": [(0, ws)],
+            "events": [(0, 0, k_eoc), (1, 0, k_edm)]}
+
+
+def gen_program(rng):
+    """-> dict(drop, doubled, offset, lines=[(frame, words)], events=[(kind, line_index, k)], gaps=[frames])
+    words are built with tags and then laid out on lines, so a load may be split over two lines"""
+    if rng.random() < 0.05:
+        return flash_probe(rng)
+    drop = rng.random() < 0.5
+    doubled = rng.choice([True, True, False, "mixed"])
+    dd = (lambda: rng.random() < 0.5) if doubled == "mixed" else (lambda: bool(doubled))
+    base = rng.choice(BASES)
+    r = rng.random()
+    if r < 0.35:
+        offset = 0
+    elif r < 0.55:
+        offset = rng.choice([1, 0.5, -2, -0.75, 7])
+    elif r < 0.70 and base >= 30 * 3600:
+        offset = rng.choice([3599, 3599.5, 1800])
+    elif r < 0.90:
+        offset = rng.uniform(0, 2) if base < 60 else rng.uniform(-3, 3)      # random fractional offsets
+    elif r < 0.94:
         offset = "big"
+    else:
+        offset = 0
     ncap = rng.choice([1, 2, 2, 3, 3, 4, 5])
-    lines = []
-    events = []
+    lines = []            # (frame, [(word, tag)])
     frame = base
     shown = False
-    flashy = rng.random() < 0.08
+    gaps = []
+
+    def code(w, tag=None):
+        out = [(w, tag)]
+        if dd():
+            out.append((w, None))
+        return out
+
     for ci in range(ncap):
         ws = []
-        ws += g.dbl([g.ENM, g.RCL], doubled)
+        how = rng.choice(["inline", "inline", "edm-first", "none", "own-line", "own-line", "bare-eoc", "after-eoc"])
+        if how == "edm-first" and shown:
+            ws += code(g.EDM, 1)                       # the common real-file layout: 942c 942c 94ae 94ae 9420 ...
+            shown = False
+        ws += code(g.ENM) + code(g.RCL)
         nrows = rng.choice([1, 1, 2])
         r0 = rng.randint(1, 14)
         rows = [r0, r0 + 1][:nrows] if rng.random() < 0.8 else sorted(rng.sample(range(1, 16), nrows))
-        for r in rows:
-            ws += g.dbl([g.pac(r, rng.choice([0, 0, 4, 8]))], doubled) + g.text_words(rng.choice(WORDS))
-        how = rng.choice(["inline", "inline", "none", "own-line", "own-line", "bare-eoc"])
-        li = len(lines)
+        for row in rows:
+            unit = [(g.pac(row, rng.choice([0, 0, 4, 8])), None)]
+            ws += unit * 2 if dd() else unit
+            ws += [(w, None) for w in g.text_words(rng.choice(WORDS))]
+        if rng.random() < 0.1:
+            ws += [(FILL, None)] * rng.randint(60, 95)   # a long line: the EOC has 71+ words before it (ff + k >= 100)
         if how == "inline" and shown:
-            # EDM, 0-6 fillers, EOC on the same line: the gap is the number of code words between them
-            events.append((1, li, len(ws)))
-            ws += g.dbl([g.EDM], doubled)
-            ws += [FILL] * rng.choice([0, 0, 1, 2, 3, 4, 5, 6])
+            ws += code(g.EDM, 1)
+            n = rng.choice([0, 0, 1, 2, 3, 4, 5, 6])
+            ws += [(FILL, None)] * n
+            shown = False
         elif how == "inline" and rng.random() < 0.3:
-            events.append((1, li, len(ws)))          # EDM with nothing displayed: no effect
-            ws += g.dbl([g.EDM], doubled)
-        events.append((0, li, len(ws)))
-        ws += g.dbl([g.EOC], doubled)
+            ws += code(g.EDM, 1)                        # EDM with nothing displayed: no effect
+        ws += code(g.EOC, 0)
         shown = True
-        if flashy and rng.random() < 0.5:
-            events.append((1, li, len(ws)))
-            ws += [g.EDM]
+        if how == "after-eoc":
+            ws += [(FILL, None)] * rng.choice([0, 1, 1, 2, 3, 6, 20])     # 1-2 frames: a flash
+            ws += code(g.EDM, 1)
             shown = False
-        lines.append((frame, ws))
-        frame += len(ws) + rng.choice([0, 1, 2, 3, 4, 5, 6, 30, 300])
+        # lay the words out on one or two lines
+        cut = rng.randint(3, len(ws) - 1) if (rng.random() < 0.15 and len(ws) > 6) else None
+        parts = [ws] if cut is None else [ws[:cut], ws[cut:]]
+        for part in parts:
+            lines.append((frame, part))
+            frame += len(part) + rng.choice([0, 0, 1, 2, 3, 4, 5, 6, 30, 300])
         if how == "own-line" and shown:
-            ws2 = g.dbl([g.EDM], doubled)
-            events.append((1, len(lines), 0))
-            lines.append((frame, ws2))
+            part = code(g.EDM, 1)
+            lines.append((frame, part))
             shown = False
-            frame += len(ws2) + rng.choice([0, 1, 2, 3, 4, 5, 6, 30, 300])
+            frame += len(part) + rng.choice([0, 1, 2, 3, 4, 5, 6, 30, 300])
         elif how == "bare-eoc" and shown:
-            # (single codes: an EOC directly after the previous line's EOC would be dropped as the second half of a
-            #  doubled pair, so at least one filler word separates them)
-            ws2 = [FILL] * rng.choice([0, 1, 3] if doubled else [1, 2, 3]) + g.dbl([g.EOC], doubled)
-            events.append((1, len(lines), len(ws2) - (2 if doubled else 1)))
-            lines.append((frame, ws2))
+            # an EOC with nothing loaded clears the screen; at least one filler separates it from the previous EOC
+            part = [(FILL, None)] * rng.choice([1, 2, 3]) + code(g.EOC, 1)
+            lines.append((frame, part))
             shown = False
-            frame += len(ws2) + rng.choice([0, 1, 2, 5, 6, 30])
+            frame += len(part) + rng.choice([0, 1, 2, 5, 6, 30])
+    events = [(tag, li, k) for li, (_, part) in enumerate(lines) for k, (_, tag) in enumerate(part) if tag is not None]
     if offset == "big":
         offset = (frame // 30) + rng.choice([1, 50, 4000])
-    return {"drop": drop, "doubled": doubled, "offset": offset, "lines": lines, "events": events}
+    return {"drop": drop, "doubled": str(doubled), "offset": offset,
+            "lines": [(f, [w for w, _ in part]) for f, part in lines], "events": events}
 
 
 def tc_fields(frame, drop):
@@ -139,11 +186,15 @@ def screens(spans):
     return out
 
 
+FRAME_ND = Fraction(1001000, 30)
+
+
 def run(ctx):
     rng = ctx.rng
     res = {"evaluations": 0, "nontrivial": set(), "violations": [], "disagreements": [], "streams": 2, "notes": []}
-    dist = {"drop": 0, "non_drop": 0, "doubled": 0, "offset": {}, "captions": {}, "outcome": {}, "inline_gap_frames": {},
-            "end_zero_sentinel_shape": 0}
+    dist = {"drop": 0, "non_drop": 0, "doubled": {}, "offset": {}, "captions": {}, "outcome": {}, "clear_to_show_gap_frames": {},
+            "end_zero_sentinel_programs": 0, "long_lines_72_words": 0, "two_digit_hours": 0, "loads_split_over_lines": 0,
+            "gap_of_exactly_five_nd_frames_not_compared_with_model": 0, "durations_within_10ms_of_flash_bound": 0}
     res["distribution"] = dist
     progs = [gen_program(rng) for _ in range(ctx.n(1500, 40000))]
     streams = [render(p) for p in progs]
@@ -164,60 +215,93 @@ def run(ctx):
         expected = dec_spans(okr[1])
         instants = [r_q(x) for x in okr[2]]
         dist["drop" if p["drop"] else "non_drop"] += 1
-        dist["doubled"] += 1 if p["doubled"] else 0
-        ok_key = "big" if p["offset"] > 3599 else str(p["offset"])
+        dist["doubled"][p["doubled"]] = dist["doubled"].get(p["doubled"], 0) + 1
+        off = p["offset"]
+        ok_key = ("beyond-timecodes" if off > 3600 else "negative" if off < 0 else "zero" if off == 0 else
+                  "whole-seconds" if off == int(off) else "fractional")
         dist["offset"][ok_key] = dist["offset"].get(ok_key, 0) + 1
+        dist["long_lines_72_words"] += any(len(ws) >= 72 for _, ws in p["lines"])
+        dist["two_digit_hours"] += any(f >= 30 * 36000 for f, _ in p["lines"])
+        dist["loads_split_over_lines"] += sum(1 for _, ws in p["lines"] if g.ENM not in ws[:3] and g.EOC in ws and g.RCL not in ws)
         oc = "ok" if isinstance(o, Ok) else impl.ERR_NAMES.get(o.code, str(o.code))
         dist["outcome"][oc] = dist["outcome"].get(oc, 0) + 1
         nshow = sum(1 for e in p["events"] if e[0] == 0)
         dist["captions"][nshow] = dist["captions"].get(nshow, 0) + 1
+        # gaps between a clear and the next show (the five-frame rule), and durations near the flash bound
+        five = False
+        for (e1, t1), (e2, t2) in zip(zip(p["events"], instants), list(zip(p["events"], instants))[1:]):
+            if e1[0] == 1 and e2[0] == 0:
+                gf = (t2 - t1) / FRAME_ND
+                key = str(int(round(float(gf)))) if gf < 12 else "12+"
+                dist["clear_to_show_gap_frames"][key] = dist["clear_to_show_gap_frames"].get(key, 0) + 1
+                if abs((t2 - t1) - 5 * FRAME_ND) < 2:
+                    five = True
+            if e1[0] == 0 and abs((t2 - t1) - 50000) < 10000:
+                dist["durations_within_10ms_of_flash_bound"] += 1
         desc = {"drop": p["drop"], "doubled": p["doubled"], "offset": p["offset"],
                 "lines": [[g.timecode(f, p["drop"]), " ".join(ws)] for f, ws in p["lines"]],
                 "events": wire_events(p)}
-        # the shape of defect #20: an event that ends a displayed caption has its instant floored to 0
-        sentinel = any(t == 0 for (e, t) in zip(p["events"], instants) if e[0] == 1) or \
-            any(t == 0 for (e, t) in list(zip(p["events"], instants))[1:] if e[0] == 0)
-        # ... and it is this known defect only if the implementation did exactly what the end-0 sentinel predicts
-        # (= what the faithful decoder model computes); anything else on such an input is reported as timing-wrong
-        sentinel = sentinel and close(full, o)
-        if sentinel:
-            dist["end_zero_sentinel_shape"] += 1
+        oscreens = Ok(screens(o.v)) if isinstance(o, Ok) else o
+        fscreens = Ok(screens(full.v)) if isinstance(full, Ok) else full
         if nshow >= 2 and (p["offset"] != 0 or p["drop"] or any(e[0] == 1 for e in p["events"])):
             res["nontrivial"].add(s + repr(p["offset"]))
         if not ok:
+            # defect #20 (known): an END instant floored to 0 by the offset is taken for "not ended yet". It is this
+            # finding only if (i) the implementation did exactly what the sentinel predicts (= the faithful decoder model)
+            # and (ii) every screen that differs from the expectation is one whose expected end is 0
+            sentinel = False
+            if isinstance(expected, Ok) and isinstance(o, Ok) and close(fscreens, oscreens):
+                near = lambda x, y: abs(x[0] - y[0]) <= TOL and abs(x[1] - y[1]) <= TOL
+                unexpected = [b for b in o.v if not any(near(a, b) for a in expected.v)]
+                missing = [a for a in expected.v if not any(near(a, b) for b in o.v)]
+                sentinel = bool(unexpected or missing) and all(a[1] == 0 for a in missing) and \
+                    all(any(a[1] == 0 and abs(a[0] - b[0]) <= TOL for a in expected.v) for b in unexpected)
+            if sentinel:
+                dist["end_zero_sentinel_programs"] += 1
             res["violations"].append({
                 "kind": "end-zero-sentinel" if sentinel else "timing-wrong", "replay": "program",
-                "what": ("an end instant floored to 0 by the offset is taken for 'not ended yet': caption gets another "
+                "what": ("an end instant floored to 0 by the offset is taken for 'not ended yet': the caption gets another "
                          "end (4 s default / next start)" if sentinel else
                          "caption (start, end) differ from the instants at which EOC / EDM were transmitted"),
                 "input": desc, "stream": s, "offset": p["offset"], "events": wire_events(p),
                 "impl_obs": o.v if isinstance(o, Ok) else repr(o),
                 "expected": expected.v if isinstance(expected, Ok) else repr(expected)})
             continue
-        if not close(full, o):
-            res["disagreements"].append({"which": "full decoder model", "input": desc, "impl": repr(o)[:400],
-                                         "model": repr(full)[:400]})
-        oscreens = Ok(screens(o.v)) if isinstance(o, Ok) else o
-        if not close(evm, oscreens):
+        if five:
+            # the statement leaves a gap of exactly five non-drop frames to either reading: no comparison with the models
+            dist["gap_of_exactly_five_nd_frames_not_compared_with_model"] += 1
+            continue
+        if not close(fscreens, oscreens):
+            res["disagreements"].append({"which": "full decoder model (screens)", "input": desc, "impl": repr(oscreens)[:400],
+                                         "model": repr(fscreens)[:400]})
+        if not close(evm, oscreens) and not (isinstance(evm, Ok) and isinstance(oscreens, Ok)
+                                             and close(Ok(screens(evm.v)), oscreens)):
             res["disagreements"].append({"which": "event-level model", "input": desc, "impl": repr(oscreens)[:400],
                                          "model": repr(evm)[:400]})
-    res["rule"] = ("timed pop-on programs, 1-5 loads of 1-2 rows, drop/non-drop, doubled/single codes, EDM inline "
-                   "(0-6 filler frames before the EOC) / on its own line / absent / bare EOC, inter-line gaps "
-                   "{0..6, 30, 300} frames, start timecodes {0, 1 frame, 59 s, 1 h, 1 h + 17 frames, 2:02:02}, offsets "
-                   "{0, 0.5, 1, 3599, beyond the last timecode}, 8% programs with a one-frame flash. Non-trivial: at "
-                   "least two captions and (offset != 0 or drop-frame or an explicit clear). Distinct (stream, offset).")
+    res["rule"] = ("timed pop-on programs, 1-5 loads of 1-2 rows; drop / non-drop; codes doubled / single / mixed per code; "
+                   "EDM inline before the EOC (0-6 fillers) / first on the load's line / after the EOC on the same line "
+                   "(0-20 fillers, incl. flashes) / on its own line / absent / bare EOC; loads split over two lines (15%); "
+                   "10% lines with 60-95 filler words (three-digit frame field); inter-line gaps {0..6, 30, 300} frames; "
+                   "start timecodes {0, 1 frame, 59 s, 1 h, 1 h + 17 f, 2:02:02, 10:59:58, 12:34:56:29, 23:45:00}; offsets "
+                   "0, {1, 0.5, -2, -0.75, 7}, {3599, 3599.5, 1800}, uniform random in [0,2] / [-3,3], beyond the last "
+                   "timecode. Non-trivial: at least two captions and (offset != 0 or drop-frame or an explicit clear). "
+                   "Distinct (stream, offset).")
     res["samples"] = [{"drop": p["drop"], "offset": p["offset"], "stream": s} for p, s in list(zip(progs, streams))[:2]]
     res["clauses"] = {
         "theorem": ["get_time: string surgery + parse = ((3600h+60m+s)+(ff+k)/30) * rate * 10^6 - offset, floored at 0, "
-                    "for all well-formed timecodes, frame counts, offsets; non-drop = 1001/1000 x drop",
-                    "all instants with whole-second offsets lie on the 1/3-microsecond lattice; frame gaps are <= 5 "
-                    "frames or >= 6 frames, never near the joining threshold",
-                    "event-level pop-on model = raw spans with gaps closed / 4 s default / flash rejection, for every "
-                    "event list with positive non-decreasing instants (stash operations as in the decoder model)",
-                    "stash invariants: extend keeps earlier captions' starts, order of starts, start <= end"],
-        "correspondence_only": ["that the decoder turns a well-formed pop-on stream into exactly these display events "
-                                "(full decoder model vs implementation on every generated stream; staged theorem)",
-                                "binary64 rounding of the time arithmetic (exact model, tolerance 2^-10 us)"]}
+                    "for all well-formed timecodes, frame counts, offsets",
+                    "popon_times: for whole programs over the full item domain, one load per line, EDM lines anywhere, "
+                    "positive instants: spans = the statement's spans of the EOC / EDM instants (composed with "
+                    "get_time_exact for rendered timecodes: C06_read_is_statement_spans); start <= end and ordered "
+                    "starts of what read returns there",
+                    "frame lattice and threshold slack; event-level model = statement spans for every event list with "
+                    "positive instants; flash never returned; 4 s default"],
+        "correspondence_only": ["stream layouts other than one load per line (EDM on the load's line, split loads, bare "
+                                "EOC): full decoder model vs implementation at the level of screens + the oracle",
+                                "binary64 rounding (exact model; oracle tolerance 0.5 us, model tolerance 2^-10 us)",
+                                "text-level tokenisation of a line"]}
+    res["notes"].append("oracle ok_c06_gap (per gap): tolerance 1/2 us, screens on both sides; a gap of exactly five non-drop frames "
+                        "may be closed or not (statement: 'shorter than five frames')")
     return res
 
 
